@@ -1,4 +1,127 @@
-(* C06 — placeholder while the proofs are being written *)
-From verif Require Import lib.Base model.C06.
-Example C06_smoke : judge1 (mkCase []) = 0%N.
-Proof. reflexivity. Qed.
+(* C06 — Lists are immutable sequences that behave like arrays at every length.
+   Property theorems only; every proof is [exact <lemma>].  The model
+   (model/C06.v) follows pkg/persistent/vector/vector.go with the bit width as
+   a parameter; [cb] is chunkBits as generated from the Go source. *)
+From Coq Require Import ZArith List.
+From verif Require Import lib.Base model.C06 proofs.C06_defs proofs.C06_tree proofs.C06_inv
+  proofs.C06_vec proofs.C06_hist proofs.C06_iter proofs.C06_final proofs.C06_sound.
+Import ListNotations.
+
+(* the generated width is admissible *)
+Theorem C06_width_ok : (1 <= cb)%Z.
+Proof. exact cb_ge1. Qed.
+Print Assumptions C06_width_ok.
+
+(* ---- invariant and refinement of every *vector operation, any width >= 1 ---- *)
+Theorem C06_inv_empty : forall b, (1 <= b)%Z -> Inv b empty /\ abs b empty = [].
+Proof. exact inv_empty. Qed.
+Print Assumptions C06_inv_empty.
+
+(* Index(i) = the i-th element of the abstract list, "not there" outside 0..len-1 *)
+Theorem C06_index_refines : forall b, (1 <= b)%Z -> forall v i, Inv b v ->
+  index b v i = Ok (l_index (abs b v) i).
+Proof. exact index_ref. Qed.
+Print Assumptions C06_index_refines.
+
+(* Conj never fails, keeps the invariant and appends (covers: tail not full, tail
+   pushed into the tree, new root when the tree is full — at every height) *)
+Theorem C06_conj_refines : forall b, (1 <= b)%Z -> forall v x, Inv b v ->
+  exists w, conj b v x = Ok w /\ Inv b w /\ abs b w = abs b v ++ [x].
+Proof. exact conj_ref. Qed.
+Print Assumptions C06_conj_refines.
+
+(* Assoc: replaces for 0 <= i < len, appends for i = len, nil otherwise *)
+Theorem C06_assoc_refines : forall b, (1 <= b)%Z -> forall v i x, Inv b v ->
+  match l_assoc (abs b v) i x with
+  | Some l' => exists w, assoc b v i x = Ok (Some w) /\ Inv b w /\ abs b w = l'
+  | None => assoc b v i x = Ok None
+  end.
+Proof. exact assoc_ref. Qed.
+Print Assumptions C06_assoc_refines.
+
+(* Pop: nil on the empty vector, otherwise removes the last element (covers: tail
+   shrinks, last leaf becomes the tail, the tree loses a level) *)
+Theorem C06_pop_refines : forall b, (1 <= b)%Z -> forall v, Inv b v ->
+  match l_pop (abs b v) with
+  | Some l' => exists w, pop b v = Ok (Some w) /\ Inv b w /\ abs b w = l'
+  | None => pop b v = Ok None
+  end.
+Proof. exact pop_ref. Qed.
+Print Assumptions C06_pop_refines.
+
+(* the iterator over [bgn, en) yields exactly that range of the abstract list
+   (never panics, never "cannot advance"); MarshalJSON order is this order *)
+Theorem C06_iter_is_abs : forall b, (1 <= b)%Z -> forall v bgn en, Inv b v ->
+  (0 <= bgn <= en)%Z -> (en <= count v)%Z ->
+  iterate_range b v bgn en = Ok (firstn (Z.to_nat (en - bgn)) (skipn (Z.to_nat bgn) (abs b v))).
+Proof. exact iter_ref. Qed.
+Print Assumptions C06_iter_is_abs.
+
+(* ---- one operation on a vector or a slice view, including the vals entry
+   points: same result as on the plain list; [strict = true] is the code with
+   the bounds test of subVector.SubVector repaired, [op_safe] excludes exactly
+   a slice-of-slice request whose bounds lie outside the slice ---- *)
+Theorem C06_operation_refines : forall b, (1 <= b)%Z -> forall strict x o,
+  VInv b x -> strict = true \/ op_safe x o ->
+  vabs_out b (m_apply b strict x o) = s_apply (vabs b x) o /\ out_inv (Inv b) (m_apply b strict x o).
+Proof. exact apply_refines_b. Qed.
+Print Assumptions C06_operation_refines.
+
+(* ---- histories over the version store ----
+   FULL STATEMENT (false for the code as it is, see C06_history_refines_list_refuted):
+     forall ops, map (vabs_out cb) (run (m_apply cb false) [Some (Vec empty)] ops)
+                 = run s_apply [Some []] ops.                                      *)
+Theorem C06_history_refines_list_refuted : exists ops,
+  map (vabs_out cb) (run (m_apply cb false) [Some (Vec empty)] ops) <> run s_apply [Some []] ops.
+Proof. exact (ex_intro _ subsub_witness subsub_bounds_refuted). Qed.
+Print Assumptions C06_history_refines_list_refuted.
+
+(* every history in which no slice of a slice is requested with bounds outside
+   the slice: every outcome (new list, rejection, element, iteration) equals the
+   outcome of the same operation on plain lists; any earlier version may be the
+   target of any operation; no length bound *)
+Theorem C06_history_refines_list_partial : forall b, (1 <= b)%Z -> forall ops,
+  safe b [Some (Vec empty)] ops ->
+  map (vabs_out b) (run (m_apply b false) [Some (Vec empty)] ops) = run s_apply [Some []] ops.
+Proof. exact history_partial_b. Qed.
+Print Assumptions C06_history_refines_list_partial.
+
+(* with the bounds test repaired the full statement holds for all histories *)
+Theorem C06_history_refines_list_repaired : forall b, (1 <= b)%Z -> forall ops,
+  map (vabs_out b) (run (m_apply b true) [Some (Vec empty)] ops) = run s_apply [Some []] ops.
+Proof. exact history_strict_b. Qed.
+Print Assumptions C06_history_refines_list_repaired.
+
+(* no operation of such a history panics (nil dereference, failed type
+   assertion, "cannot advance") or exhausts the iteration fuel *)
+Theorem C06_no_panic_partial : forall b, (1 <= b)%Z -> forall ops,
+  safe b [Some (Vec empty)] ops ->
+  ~ In XPanic (run (m_apply b false) [Some (Vec empty)] ops) /\
+  ~ In XFuel (run (m_apply b false) [Some (Vec empty)] ops).
+Proof. exact no_panic_partial_b. Qed.
+Print Assumptions C06_no_panic_partial.
+
+(* persistence: reading (Index / iteration) any existing version gives the same
+   result however many operations on whatever versions happen in between *)
+Theorem C06_old_versions_unchanged : forall b strict st ops1 ops2 o,
+  (op_target o < length (store_after (m_apply b strict) st ops1))%nat ->
+  last (run (m_apply b strict) st (ops1 ++ [o])) XMissing =
+  last (run (m_apply b strict) st (ops1 ++ ops2 ++ [o])) XMissing.
+Proof. exact (fun b strict => old_versions_unchanged (m_apply b strict)). Qed.
+Print Assumptions C06_old_versions_unchanged.
+
+(* the oracle used on the implementation's observations is sound: if it accepts,
+   every observation agrees with the outcome of the same history on plain lists *)
+Theorem C06_oracle_sound : forall steps, check_C06 steps = true ->
+  Forall2 obs_agrees (run s_apply [Some []] (map fst steps)) (map snd steps).
+Proof. exact check_C06_sound. Qed.
+Print Assumptions C06_oracle_sound.
+
+(* non-vacuity: a safe history crossing both height changes, with slices of slices *)
+Example C06_nonvacuous :
+  safe cb [Some (Vec empty)]
+    [OConjRange 0 0 1057; OPop 1; OPopN 2 1000; OSub 1 30 70; OSub 4 1 5; OAssoc 5 4 (AVal 9); OIter 6; OIter 1]
+  /\ nth 6 (run (m_apply cb false) [Some (Vec empty)]
+    [OConjRange 0 0 1057; OPop 1; OPopN 2 1000; OSub 1 30 70; OSub 4 1 5; OAssoc 5 4 (AVal 9); OIter 6; OIter 1]) XMissing
+     = XRead [AVal 31; AVal 32; AVal 33; AVal 34; AVal 9].
+Proof. exact nonvacuous_example. Qed.
